@@ -195,3 +195,35 @@ var CfgC07 = reg(&MachineCfg{
 		return &world.Step{Kind: "tx", Tx: g.genBurnTx()}
 	},
 })
+
+var mixedGens = []interface{}{"aol", 22, "did", 18, "pnft", 22, "burn", 6, "bank", 4, "authz", 3}
+
+func withGens(extra ...interface{}) []interface{} { return append(append([]interface{}{}, mixedGens...), extra...) }
+
+var CfgC09 = reg(&MachineCfg{
+	Prop: "C09", Also: agreement, Twin: true, Perturb: true,
+	Gens: withGens("commit", 18, "export", 4, "crash", 1),
+	Bias: map[string]int{"right-signers": 88, "exec": 5, "right-proof": 75, "multi": 12},
+	Rule: "differential twin: every committed block (all modules, failing txs, burn deposits, end-blocker activity) is executed by a second, independently constructed instance that is perturbed by CheckTx(New/Recheck), Simulate (also of later txs) and queries between deliveries, a different GOMAXPROCS and time zone, and that re-initialises from its own genesis export; compared at every height: app hash, per-tx code/codespace/data/gas/events, Begin/EndBlock events, probe-set answers; non-trivial = >=5 compared blocks with >=1 failing tx and >=1 perturbation",
+	NonTrivial: func(w *world.World) bool {
+		return lab(w, "twin block compared") >= 5 && lab(w, "tx handler")+lab(w, "tx ante") > 0 &&
+			lab(w, "twin perturbed: CheckTx")+lab(w, "twin perturbed: Simulate")+lab(w, "twin perturbed: ReCheckTx") > 0
+	},
+	Step: burnStep,
+})
+
+var CfgC10 = reg(&MachineCfg{
+	Prop: "C10", Also: agreement, Twin: true,
+	Gens: withGens("commit", 14, "crash", 5, "crash_redeliver", 6, "crash_endblock", 3, "restart", 2, "export", 1),
+	Bias: map[string]int{"right-signers": 92, "exec": 3, "right-proof": 80},
+	Rule: "histories with stop points after Commit, after BeginBlock, after any prefix of a block's txs and after EndBlock-before-Commit: the instance is abandoned and a new application is opened on the same database; oracle = height, app hash and every mounted store equal the committed snapshot, the re-delivered block reproduces its results, and every later block hash equals a twin that never stopped; non-trivial = a crash inside a block after >=1 delivered tx",
+	NonTrivial: func(w *world.World) bool { return lab(w, "crash after delivered txs") > 0 },
+	Step:       burnStep,
+})
+
+func burnStep(g *G, kind string) *world.Step {
+	if kind != "burn" {
+		return nil
+	}
+	return &world.Step{Kind: "tx", Tx: g.genBurnTx()}
+}
